@@ -899,10 +899,84 @@ fn check_state(ctx: &mut Ctx, w: &mut World, fam: usize, changes: &[(usize, Nlri
     if w.paths.iter().any(|p| p.fam == fam && p.nh_invalid && !p.filtered) {
         ctx.rep.count("unjudged:list-path-shows-nexthop-invalid-unmarked");
     }
+    // 5. route-server local RIB view (ListPath TABLE_TYPE_LOCAL of an RS client)
+    judge_rs_local(ctx, w, fam)?;
     if ctx.rep.want_sample() && n_elig >= 3 && ctx.rep.evaluations % 211 == 7 {
         ctx.rep.sample(witness(w, fam, "loc-rib", &full_tags, "sample: judged state, all clauses held or as reported".into()));
     }
     Some(best)
+}
+
+/// `destinations(TableQuery::RsLocal(peer))` shows one path: the best among the unfiltered
+/// paths of the *other* route-server clients.  Judged: no such path with a reachable next
+/// hop beats the shown one under the reference order (ties legal).
+fn judge_rs_local(ctx: &mut Ctx, w: &mut World, fam: usize) -> Option<()> {
+    let rs_peers: Vec<usize> = (0..w.peers.len()).filter(|&i| !w.peers[i].local && w.peers[i].role == PeerRole::RsClient).collect();
+    if rs_peers.is_empty() {
+        return Some(());
+    }
+    // every RS client as the querying peer, plus one address that is nobody's
+    let mut queries: Vec<(String, IpAddr)> = rs_peers.iter().map(|&i| (format!("peer {}", i), peer_addr(i))).collect();
+    queries.push(("no peer".into(), IpAddr::V4(Ipv4Addr::new(198, 51, 100, 99))));
+    for (who, qaddr) in queries {
+        let t = &w.t;
+        let got = match guard(|| {
+            t.destinations(TableQuery::RsLocal(qaddr), family(fam), vec![], false)
+                .filter(|d| d.net == net(fam))
+                .flat_map(|d| d.paths.into_iter().map(|p| tag_of(&p.attr)))
+                .collect::<Vec<_>>()
+        }) {
+            Ok(v) => v,
+            Err(p) => {
+                report_panic(ctx, w, &p, "destinations(RsLocal)");
+                return None;
+            }
+        };
+        let cands: Vec<&MPath> = w.paths.iter().filter(|p| p.fam == fam && p.sess.role == PeerRole::RsClient && !p.sess.src.is_local() && p.addr != qaddr && !p.filtered).collect();
+        let obs: Vec<u32> = got.iter().filter_map(|t| *t).collect();
+        if cands.is_empty() && got.is_empty() {
+            continue;
+        }
+        ctx.rep.count("rs-local:queries-with-candidates");
+        let shown = if got.len() == 1 { cands.iter().copied().find(|p| Some(p.tag) == got[0]) } else { None };
+        let Some(shown) = shown else {
+            ctx.rep.violation(
+                "C02/maximal/rs-local-not-one-candidate",
+                "the RS-local view does not show exactly one of the other RS clients' unfiltered paths",
+                witness(w, fam, "rs-local", &obs, format!("query for {}: {} paths shown, {} candidates", who, got.len(), cands.len())),
+            );
+            continue;
+        };
+        if cands.len() >= 2 {
+            ctx.rep.count("rs-local:judged-with>=2-candidates");
+        }
+        if shown.nh_invalid {
+            ctx.rep.count("unjudged:rs-local-shows-nexthop-invalid");
+        }
+        let sk = ref_key(shown);
+        let mut ch: Option<&MPath> = None;
+        for p in cands.iter().copied().filter(|p| !p.nh_invalid) {
+            if better_at(&ref_key(p), &sk).is_some() && ch.is_none_or(|c| better_at(&ref_key(p), &ref_key(c)).is_some()) {
+                ch = Some(p);
+            }
+        }
+        match ch {
+            Some(p) => {
+                let k = better_at(&ref_key(p), &sk).unwrap();
+                ctx.rep.count("violated:rs-local");
+                ctx.rep.violation(
+                    "C02/maximal/rs-local",
+                    "the path shown as the route-server local RIB best of an RS client is beaten by another RS client's unfiltered path",
+                    witness(w, fam, "rs-local", &obs, format!(
+                        "query for {} ({}) || shown: {} || strictly better at step `{}`: {} || {} candidates",
+                        who, qaddr, shown.desc(), STEPS[k], p.desc(), cands.len()
+                    )),
+                );
+            }
+            None => ctx.rep.count("held:rs-local"),
+        }
+    }
+    Some(())
 }
 
 fn step(ctx: &mut Ctx, w: &mut World, op: Op, check: bool) -> Option<()> {
@@ -1457,6 +1531,190 @@ fn run_histories(ctx: &mut Ctx, rng: &mut Rng, count: u64) {
     }
 }
 
+// ---------------------------------------------------------------- (d) tie histories
+//
+// Histories in which almost every path ties with the others on all steps but the last
+// ones (CLUSTER_LIST length / ORIGINATOR_ID / router-id), with filtered and
+// next-hop-invalid paths sitting mid-rank.  After every disturbance of the internal list
+// (restale, restale_llgr, next-hop flip, replacement that toggles `filtered`) new tying
+// paths are inserted and the current best is removed, so that an entry left at a wrong
+// internal position (invisible while a better path hides it) becomes the reported best.
+// Only the usual clauses are judged; the order of ineligible entries is never judged.
+fn run_tie_histories(ctx: &mut Ctx, rng: &mut Rng, count: u64) {
+    const NP: usize = 8;
+    for _ in 0..count {
+        if !ctx.rep.in_budget() {
+            break;
+        }
+        ctx.rep.count("tie-histories");
+        let mut rids: Vec<u32> = (1..=NP as u32).collect();
+        rng.shuffle(&mut rids);
+        let class: &[PeerRole] = match rng.below(3) {
+            0 => &[PeerRole::RsClient],
+            1 => &[PeerRole::Ebgp, PeerRole::RsClient],
+            _ => &[PeerRole::Ibgp, PeerRole::IbgpRrClient, PeerRole::ConfedEbgp],
+        };
+        let peers: Vec<PeerCfg> = (0..NP).map(|i| PeerCfg { role: *rng.pick(class), rid: rids[i], local: false }).collect();
+        let mut w = World::new(peers);
+        let fam = if rng.chance(1, 4) { EVPN } else { V4 };
+        let mut base = random_spec(rng, false);
+        base.no_llgr_comm = false;
+        base.llgr_comm = rng.chance(1, 6);
+        base.originator = None;
+        base.cluster = 1 + rng.below(2) as u8;
+        let tie_spec = |rng: &mut Rng| {
+            let mut s = base;
+            match rng.below(12) {
+                0..=1 => s.cluster = base.cluster + 1,
+                2 => s.cluster = base.cluster - 1,
+                3 => s.originator = Some(rng.range(1, 9) as u32),
+                4 => s.origin = (base.origin + 1) % 3, // an occasional non-tie
+                _ => {}
+            }
+            s
+        };
+        // Idle / Up / GrStale / LlgrStale per peer (one family per history)
+        let mut phase = [Phase::Idle; NP];
+        let mut pending: [Option<Phase>; NP] = [None; NP];
+        if rng.bool() {
+            let _ = step(ctx, &mut w, Op::NhFlip { nh: 2, reachable: false }, false);
+        }
+        let mut alive = true;
+        macro_rules! go {
+            ($op:expr) => {
+                if alive && step(ctx, &mut w, $op, true).is_none() {
+                    alive = false;
+                }
+            };
+        }
+        let tie_insert = |rng: &mut Rng, w: &World, phase: &mut [Phase; NP], prefer_new: bool| -> Option<Op> {
+            let usable: Vec<usize> = (0..NP).filter(|&i| matches!(phase[i], Phase::Idle | Phase::Up)).collect();
+            let fresh: Vec<usize> = usable.iter().copied().filter(|&i| !w.paths.iter().any(|p| p.fam == fam && p.peer == i)).collect();
+            let peer = if prefer_new && !fresh.is_empty() { *rng.pick(&fresh) } else if !usable.is_empty() { *rng.pick(&usable) } else { return None };
+            phase[peer] = Phase::Up;
+            Some(Op::Insert {
+                peer,
+                fam,
+                path_id: if rng.chance(1, 8) { 1 } else { 0 },
+                spec: tie_spec(rng),
+                filtered: rng.chance(1, 5),
+                nh: Some(rng.below(3) as u8),
+            })
+        };
+        for _ in 0..rng.range(3, 5) {
+            if let Some(op) = tie_insert(rng, &w, &mut phase, true) {
+                go!(op);
+            }
+        }
+        let rounds = rng.range(3, 8);
+        for _ in 0..rounds {
+            if !alive {
+                break;
+            }
+            // ---- one disturbance
+            let with_path = |w: &World, ph: &[Phase; NP], want: &[Phase]| -> Vec<usize> {
+                (0..NP).filter(|&i| want.contains(&ph[i]) && w.paths.iter().any(|p| p.fam == fam && p.peer == i)).collect()
+            };
+            match rng.below(100) {
+                0..=34 => {
+                    let c = with_path(&w, &phase, &[Phase::Up]);
+                    if !c.is_empty() {
+                        let peer = *rng.pick(&c);
+                        ctx.rep.count("tie:disturb:restale");
+                        phase[peer] = Phase::GrStale;
+                        go!(Op::Restale { peer, fam });
+                    }
+                }
+                35..=49 => {
+                    let c = with_path(&w, &phase, &[Phase::Up, Phase::GrStale]);
+                    if !c.is_empty() {
+                        let peer = *rng.pick(&c);
+                        ctx.rep.count("tie:disturb:restale_llgr");
+                        phase[peer] = Phase::LlgrStale;
+                        go!(Op::RestaleLlgr { peer, fam });
+                        go!(Op::DropNoLlgr { peer, fam });
+                    }
+                }
+                50..=64 => {
+                    let nh = rng.below(3) as u8;
+                    let reachable = w.unreachable.contains(&nh);
+                    ctx.rep.count("tie:disturb:nexthop-flip");
+                    go!(Op::NhFlip { nh, reachable });
+                }
+                65..=84 => {
+                    // replacement that only toggles `filtered`
+                    let c: Vec<MPath> = w.paths.iter().filter(|p| p.fam == fam && phase[p.peer] == Phase::Up).cloned().collect();
+                    if !c.is_empty() {
+                        let p = rng.pick(&c).clone();
+                        ctx.rep.count("tie:disturb:filtered-replacement");
+                        go!(Op::Insert { peer: p.peer, fam, path_id: p.path_id, spec: p.spec, filtered: !p.filtered, nh: p.nh });
+                    }
+                }
+                _ => {
+                    // a stale peer comes back (fresh Source), re-announces and sends End-of-RIB; or its timer expires
+                    let c: Vec<usize> = (0..NP).filter(|&i| matches!(phase[i], Phase::GrStale | Phase::LlgrStale)).collect();
+                    if !c.is_empty() {
+                        let peer = *rng.pick(&c);
+                        if rng.bool() {
+                            ctx.rep.count("tie:disturb:reconnect");
+                            pending[peer] = Some(phase[peer]);
+                            phase[peer] = Phase::Up;
+                            go!(Op::NewSession { peer, fam });
+                            if rng.bool() {
+                                go!(Op::Insert { peer, fam, path_id: 0, spec: tie_spec(rng), filtered: rng.chance(1, 5), nh: Some(rng.below(3) as u8) });
+                            }
+                            if rng.bool() {
+                                let ph = pending[peer].take().unwrap();
+                                go!(if ph == Phase::GrStale { Op::DropStale { peer, fam } } else { Op::DropLlgrStale { peer, fam } });
+                            }
+                        } else {
+                            ctx.rep.count("tie:disturb:stale-expiry");
+                            let op = if phase[peer] == Phase::LlgrStale { Op::DropLlgrStale { peer, fam } } else { Op::Drop { peer, fam } };
+                            phase[peer] = Phase::Idle;
+                            pending[peer] = None;
+                            go!(op);
+                            w.sess[peer][fam] = None;
+                        }
+                    }
+                }
+            }
+            if !alive || rng.chance(3, 20) {
+                continue;
+            }
+            // ---- follow-up: tying inserts, then the best goes away (possibly twice)
+            for _ in 0..rng.range(1, 2) {
+                let prefer_new = rng.chance(3, 4);
+                if let Some(op) = tie_insert(rng, &w, &mut phase, prefer_new) {
+                    ctx.rep.count("tie:follow-up-insert");
+                    go!(op);
+                }
+            }
+            for _ in 0..rng.range(1, 2) {
+                let best = w.paths.iter().filter(|p| p.fam == fam && p.eligible()).min_by_key(|p| ref_key(p)).cloned();
+                let Some(b) = best else { break };
+                ctx.rep.count("tie:remove-best");
+                if phase[b.peer] == Phase::Up && !b.sess.gr.get() && !b.sess.llgr.get() {
+                    go!(Op::Remove { peer: b.peer, fam, path_id: b.path_id });
+                } else if phase[b.peer] == Phase::Up {
+                    // a still-stale path of a re-established peer: purged by its End-of-RIB
+                    pending[b.peer] = None;
+                    go!(if b.sess.llgr.get() { Op::DropLlgrStale { peer: b.peer, fam } } else { Op::DropStale { peer: b.peer, fam } });
+                } else {
+                    // the best belongs to a peer that is down: its restart / LLGR timer expires
+                    let op = if phase[b.peer] == Phase::LlgrStale { Op::DropLlgrStale { peer: b.peer, fam } } else { Op::Drop { peer: b.peer, fam } };
+                    phase[b.peer] = Phase::Idle;
+                    pending[b.peer] = None;
+                    go!(op);
+                    w.sess[b.peer][fam] = None;
+                }
+            }
+        }
+        if alive {
+            ctx.rep.count("tie-histories-completed");
+        }
+    }
+}
+
 fn main() {
     let params = Params::from_args_env();
     let rule = "case = one judged state of one prefix (after one op of a history / at the end of one arrival order); non-trivial = at least two eligible (unfiltered, next-hop-valid) paths compete; distinct by hash of (family, paths in arrival order with all decision-relevant attributes and marks)";
@@ -1476,7 +1734,10 @@ fn main() {
         run_perms(&mut ctx, &mut rng.fork(), params.n(700, 20_000));
     }
     if part == "all" || part == "history" {
-        run_histories(&mut ctx, &mut rng.fork(), params.n(4_000, 60_000));
+        run_histories(&mut ctx, &mut rng.fork(), params.n(3_000, 50_000));
+    }
+    if part == "all" || part == "history" || part == "tie" {
+        run_tie_histories(&mut ctx, &mut rng.fork(), params.n(3_000, 50_000));
     }
     if ctx.rep.evaluations < 200 && params.scale >= 1.0 {
         ctx.rep.inconclusive("fewer than 200 evaluations");
